@@ -450,6 +450,63 @@ def run_tampered(task):
     return res
 
 
+LATE_EPS = ["read_file", "open_file", "open_seekable", "write_file", "exists", "list_files", "delete_file", "get_size", "get_modified_time", "makedirs",
+            "dfm.read_data_file", "dfm.open_parquet_source", "dfm.write_data_file", "table.scan", "table.gc"]
+
+
+def run_late_symlinks(task):
+    """A directory inside the table is first used normally and is THEN replaced by a symlink to the outside; the same path is used again through the
+    SAME storage / table objects (anything remembered from the first use must not let the second one out)."""
+    import shutil
+
+    res = Result()
+    install_hook()
+    dirs = ["data", "data/part", "metadata/manifests", "metadata"]
+    idx = 0
+    for via in (False, True):
+        for dname in dirs:
+            for ep in LATE_EPS:
+                idx += 1
+                if idx % task["nshard"] != task["shard"]:
+                    continue
+                with scratch_dir("c17l") as d:
+                    L = Layout(d, via)
+                    os.makedirs(os.path.join(L.root, "data", "part"), exist_ok=True)
+                    import pyarrow as pa
+                    import pyarrow.parquet as pq
+
+                    tb = pa.Table.from_pylist([{"k": 7, "s": "in"}], schema=pa.schema([("k", pa.int64()), ("s", pa.string())]))
+                    for dd in dirs:
+                        os.makedirs(os.path.join(L.root, dd), exist_ok=True)
+                        pq.write_table(tb, os.path.join(L.root, dd, "x.parquet"))
+                        # the outside twin has the same names
+                        os.makedirs(os.path.join(L.base, "outside", dd), exist_ok=True)
+                        pq.write_table(tb, os.path.join(L.base, "outside", dd, "x.parquet"))
+                    L.fp = L.fingerprint()
+                    path = f"{dname}/x.parquet" if ep not in ("list_files", "makedirs") else dname
+
+                    def call():
+                        if ep == "table.scan":
+                            return L.t.scan()
+                        if ep == "table.gc":
+                            return L.t.garbage_collect(grace_period_ms=10**9)
+                        return call_ep(L, ep, path)
+
+                    first = monitored(L, call)
+                    # now the directory becomes a symlink to its outside twin
+                    real = os.path.join(L.root, dname)
+                    shutil.move(real, real + ".moved")
+                    os.symlink(os.path.join(L.base, "outside", dname), real)
+                    outcome, val, events = monitored(L, call)
+                    case = {"kind": "late", "ep": ep, "dir": dname, "via_symlink": via}
+                    res.case(key=f"late|{ep}|{dname}|{via}", nontrivial=True, labels=["late-symlink", f"outcome:{outcome}"] + (["via-symlink-root"] if via else []), sample=case if idx % 17 == 0 else None)
+                    if events:
+                        res.violation(f"outside-access/late-symlink/{ep}", f"{ep}({path!r}) after {dname} was replaced by a symlink to the outside: touched {events[:3]}", case)
+                    elif L.fingerprint() != L.fp:
+                        res.violation(f"sentinel-changed/late-symlink/{ep}", f"{ep}({path!r}) after {dname} became a symlink: sentinel tree changed", case)
+    return res
+
+
 @st.composite
 def deep_path(draw):
     n = draw(st.integers(4, 5))
@@ -469,6 +526,8 @@ def plan(tier, seed):
         ns = 3 if tier == "quick" else 2
         for s in range(ns):
             tasks.append({"kind": "tamper", "via_symlink": via, "shard": s, "nshard": ns})
+    for s in range(3):
+        tasks.append({"kind": "late", "shard": s, "nshard": 3})
     n = 150 if tier == "quick" else 8000
     for s in range(2 if tier == "quick" else 8):
         tasks.append({"kind": "deep", "n": n, "seed": seed * 1000 + s, "tier": tier})
@@ -480,6 +539,8 @@ def run_task(task):
         return run_paths(task)
     if task["kind"] == "tamper":
         return run_tampered(task)
+    if task["kind"] == "late":
+        return run_late_symlinks(task)
     res = Result()
     install_hook()
     state = {}
@@ -516,6 +577,9 @@ def replay(case):
     with scratch_dir("c17r") as d:
         L = Layout(d, case.get("via_symlink", False))
         tmp = Result()
+        if case["kind"] == "late":
+            r = run_late_symlinks({"shard": 0, "nshard": 1})
+            return [{"bucket": v["bucket"], "what": v["what"]} for v in r.violations if v["case"].get("ep") == case["ep"] and v["case"].get("dir") == case["dir"]][:1]
         if case["kind"] == "tamper":
             tamper(L, case["what"], _subst(L, case["target"]))
             outcome, val, events = monitored(L, lambda: do_action(L, case["action"]))
